@@ -21,23 +21,24 @@ def deprecatedJob (j : Job) : List Diag :=
 def ifCondJob (j : Job) : List Diag := checkIfCond j.cond ++ (AL.Rules.stepsOf j).flatMap fun st => checkIfCond st.cond
 
 /-- everything the eleven per-job rules report about one job -/
-def perJob (lower : String → String) (urlOk : String → Bool) (j : Job) : List Diag :=
-  matrixJob j ++ credentialsJob j ++ shellNameJob lower j ++ runnerLabelJob lower j ++
+def perJob (lower : String → String) (urlOk : String → Bool) (j : Job) (lc : LabelCfg := {}) : List Diag :=
+  matrixJob j ++ credentialsJob j ++ shellNameJob lower j ++ runnerLabelJob lower j lc ++
   (AL.Rules.stepsOf j).flatMap (actionStep urlOk) ++ envVarJob j ++ idJob lower j ++ checkPermissions j.permissions ++
   workflowCallJob j ++ deprecatedJob j ++ ifCondJob j
 
-/-- the workflow-level diagnostics: the workflow's default shell, `on:`, `env:`, the filter patterns, `permissions:` -/
-def header (lower : String → String) (isNum : String → Bool) (w : Workflow) : List Diag :=
-  checkShellName lower .any (defaultsShell w.defaults) ++ ruleEvents lower isNum w ++ checkEnv w.env ++ ruleGlob w ++
+/-- the workflow-level diagnostics: the workflow's default shell, `on:` (the CRON check of `schedule` included), `env:`, the
+filter patterns, `permissions:` -/
+def header (lower : String → String) (isNum : String → Bool) (w : Workflow) (lc : LabelCfg := {}) : List Diag :=
+  checkShellName lower .any (defaultsShell w.defaults) ++ ruleEvents lower isNum w lc ++ checkEnv w.env ++ ruleGlob w ++
   checkPermissions w.permissions
 
-theorem count_per_job (lower : String → String) (urlOk : String → Bool) (a : Diag) (js : List Job) :
+theorem count_per_job (lower : String → String) (urlOk : String → Bool) (a : Diag) (js : List Job) (lc : LabelCfg := {}) :
     List.count a (js.flatMap matrixJob) + List.count a (js.flatMap credentialsJob) + List.count a (js.flatMap (shellNameJob lower)) +
-    List.count a (js.flatMap (runnerLabelJob lower)) + List.count a (js.flatMap fun j => (AL.Rules.stepsOf j).flatMap (actionStep urlOk)) +
+    List.count a (js.flatMap (fun j => runnerLabelJob lower j lc)) + List.count a (js.flatMap fun j => (AL.Rules.stepsOf j).flatMap (actionStep urlOk)) +
     List.count a (js.flatMap envVarJob) + List.count a (js.flatMap (idJob lower)) +
     List.count a (js.flatMap fun j => checkPermissions j.permissions) + List.count a (js.flatMap workflowCallJob) +
     List.count a (js.flatMap deprecatedJob) + List.count a (js.flatMap ifCondJob) =
-    List.count a (js.flatMap (perJob lower urlOk)) := by
+    List.count a (js.flatMap (fun j => perJob lower urlOk j lc)) := by
   induction js with
   | nil => simp
   | cons j rest ih =>
@@ -46,12 +47,12 @@ theorem count_per_job (lower : String → String) (urlOk : String → Bool) (a :
 
 /-- **all rules but job-needs are per job**: `rules` = job-needs + the workflow-level part + one block per job that is a
 function of that job alone (up to the order the sort at the end of `Linter.check` fixes anyway) -/
-theorem rules_per_job (lower : String → String) (isNum urlOk : String → Bool) (w : Workflow) :
-    (rules lower isNum urlOk w).Perm
-      (ruleJobNeeds lower w ++ (header lower isNum w ++ (jobsOf w).flatMap (perJob lower urlOk))) := by
+theorem rules_per_job (lower : String → String) (isNum urlOk : String → Bool) (w : Workflow) (lc : LabelCfg := {}) :
+    (rules lower isNum urlOk w lc).Perm
+      (ruleJobNeeds lower w ++ (header lower isNum w lc ++ (jobsOf w).flatMap (fun j => perJob lower urlOk j lc))) := by
   rw [List.perm_iff_count]
   intro a
-  have h := count_per_job lower urlOk a (jobsOf w)
+  have h := count_per_job lower urlOk a (jobsOf w) lc
   have e1 : ruleDeprecatedCommands w = (jobsOf w).flatMap deprecatedJob := rfl
   have e2 : ruleIfCond w = (jobsOf w).flatMap ifCondJob := rfl
   simp only [rules, e1, e2, ruleMatrix, ruleCredentials, ruleShellName, ruleRunnerLabel, ruleAction, ruleEnvVar, ruleId, rulePermissions,
@@ -59,7 +60,7 @@ theorem rules_per_job (lower : String → String) (isNum urlOk : String → Bool
   omega
 
 /-- reordering the jobs only reorders the diagnostics of these rules -/
-theorem reorder_jobs (lower : String → String) (urlOk : String → Bool) (js js' : List Job) (h : js.Perm js') :
-    (js.flatMap (perJob lower urlOk)).Perm (js'.flatMap (perJob lower urlOk)) := List.Perm.flatMap_right _ h
+theorem reorder_jobs (lower : String → String) (urlOk : String → Bool) (js js' : List Job) (h : js.Perm js') (lc : LabelCfg := {}) :
+    (js.flatMap (fun j => perJob lower urlOk j lc)).Perm (js'.flatMap (fun j => perJob lower urlOk j lc)) := List.Perm.flatMap_right _ h
 
 end AL.C09A
